@@ -157,7 +157,7 @@ func (g *gen) leaf(typ string) (*Tree, int64) {
 		return vr("s"), 1
 	case "il":
 		if isConst || g.r.Intn(2) == 0 {
-			return cst([][]int64{{1, 2}, {0}, {2, 2, 3}, {-1, 0, 1}}[g.r.Intn(4)]), 1
+			return cst([][]int64{{1, 2}, {0}, {2, 2, 3}, {-1, 0, 1}, {2, -2, 3, -1}}[g.r.Intn(5)]), 1
 		}
 		return vr("l"), 1
 	case "sl":
